@@ -1,16 +1,17 @@
 #!/usr/bin/env python3
 """re-runs the quick (or given tier) check against every seeded change (in scratch worktrees) and updates seeded/*/meta.json"""
 import json, os, subprocess, sys, glob
+VERIF = os.path.dirname(os.path.dirname(os.path.abspath(__file__)))
 tier = sys.argv[1] if len(sys.argv) > 1 else "quick"
 only = sys.argv[2:] 
 rows = []
-for d in sorted(glob.glob("/verif/seeded/*/")):
+for d in sorted(glob.glob(VERIF + "/seeded/*/")):
     name = os.path.basename(d.rstrip("/"))
     if only and not any(name.startswith(o) for o in only):
         continue
     meta = json.load(open(d + "meta.json"))
     prop = meta["property"]
-    r = subprocess.run(["/verif/tools/try_mutant.sh", d + "patch.diff", prop, tier], capture_output=True, text=True, env=dict(os.environ, LINES_MAX="3"))
+    r = subprocess.run([VERIF + "/tools/try_mutant.sh", d + "patch.diff", prop, tier], capture_output=True, text=True, env=dict(os.environ, LINES_MAX="3"))
     out = r.stdout
     rc = r.returncode
     res = {1: "detected", 0: "missed"}.get(rc, "inconclusive" if rc == 2 else "patch-does-not-apply")
